@@ -510,7 +510,8 @@ func (cr *crashRunner) submit(s Script, img Image, r *rand.Rand) {
 					os.RemoveAll(v)
 					continue
 				}
-				cr.jobs <- crashJob{script: s, img: img, dir: v, level: 1, variant: fmt.Sprintf("torn:%s@%d(synced %d, written %d)", name, c, fsx.Synced, fsx.Written)}
+				cr.jobs <- crashJob{script: s, img: img, dir: v, level: 1, variant: fmt.Sprintf("torn:%s@%d(synced %d, written %d)", name, c, fsx.Synced, fsx.Written),
+					deeper: cr.depth > 1 && r.Intn(cr.deepEvery) == 0}
 			}
 		}
 	}
